@@ -1,0 +1,13 @@
+//go:build verif
+
+package segment
+
+// VerifSetMaxPayloadSize replaces the segment payload size and returns a restore function.
+func VerifSetMaxPayloadSize(size int) (restore func()) {
+	org := maxPayloadSize
+	maxPayloadSize = size
+	return func() { maxPayloadSize = org }
+}
+
+// VerifMaxPayloadSize returns the current segment payload size.
+func VerifMaxPayloadSize() int { return maxPayloadSize }
